@@ -67,15 +67,85 @@ class Ref(Kind):
         return f"Ref({self.cls})"
 
 
+_LIST_SORTS = {}
+USED_LIST_SORTS = {}
+
+
+def list_sort(elem_sort):
+    """Python lists as (length, index -> element) pairs: arrays interact with quantifiers far better
+    than the SMT sequence theory."""
+    name = f"List<{elem_sort}>"
+    if name not in _LIST_SORTS:
+        dt = z3.Datatype(name)
+        dt.declare("mk", ("len", z3.IntSort()), ("at", z3.ArraySort(z3.IntSort(), elem_sort)))
+        _LIST_SORTS[name] = dt.create()
+        USED_LIST_SORTS[name] = _LIST_SORTS[name]
+    return _LIST_SORTS[name]
+
+
 class Seq(Kind):
     def __init__(self, elem):
         self.elem = elem
 
     def sort(self):
-        return z3.SeqSort(self.elem.sort())
+        return list_sort(self.elem.sort())
 
     def __repr__(self):
         return f"Seq({self.elem})"
+
+    # ---- term constructors / accessors
+    def len(self, t):
+        return self.sort().len(t)
+
+    def at(self, t, i):
+        return z3.Select(self.sort().at(t), i)
+
+    def arr(self, t):
+        return self.sort().at(t)
+
+    def mk(self, n, arr):
+        return self.sort().mk(n, arr)
+
+    def default_arr(self):
+        es = self.elem.sort()
+        return z3.K(z3.IntSort(), z3.Const(f"dflt<{es}>", es))
+
+    def empty(self):
+        return self.mk(z3.IntVal(0), self.default_arr())
+
+    def from_terms(self, terms):
+        arr = self.default_arr()
+        for i, t in enumerate(terms):
+            arr = z3.Store(arr, i, t)
+        return self.mk(z3.IntVal(len(terms)), arr)
+
+    def append(self, t, x):
+        return self.mk(self.len(t) + 1, z3.Store(self.arr(t), self.len(t), x))
+
+    def concat(self, a, b):
+        i = z3.Const(fresh_name("ci"), z3.IntSort())
+        la = self.len(a)
+        arr = z3.Lambda([i], z3.If(i < la, z3.Select(self.arr(a), i), z3.Select(self.arr(b), i - la)))
+        return self.mk(la + self.len(b), arr)
+
+    def contains(self, t, x):
+        i = z3.Const(fresh_name("mi"), z3.IntSort())
+        return z3.Exists([i], z3.And(0 <= i, i < self.len(t), z3.Select(self.arr(t), i) == x))
+
+    def sub(self, t, lo, n):
+        i = z3.Const(fresh_name("si"), z3.IntSort())
+        return self.mk(n, z3.Lambda([i], z3.Select(self.arr(t), i + lo)))
+
+    def without(self, t, k):
+        """The list with the element at index k removed."""
+        i = z3.Const(fresh_name("ri"), z3.IntSort())
+        return self.mk(self.len(t) - 1, z3.Lambda([i], z3.If(i < k, z3.Select(self.arr(t), i), z3.Select(self.arr(t), i + 1))))
+
+    def equal(self, a, b):
+        i = z3.Const(fresh_name("ei"), z3.IntSort())
+        return z3.And(self.len(a) == self.len(b),
+                      z3.ForAll([i], z3.Implies(z3.And(0 <= i, i < self.len(a)),
+                                                z3.Select(self.arr(a), i) == z3.Select(self.arr(b), i))))
 
 
 class SetK(Kind):
@@ -106,7 +176,7 @@ class Map(Kind):
                 "mk",
                 ("dom", z3.ArraySort(self.key.sort(), z3.BoolSort())),
                 ("val", z3.ArraySort(self.key.sort(), self.val.sort())),
-                ("keys", z3.SeqSort(self.key.sort())),
+                ("keys", list_sort(self.key.sort())),
             )
             _MAP_SORTS[name] = dt.create()
         return _MAP_SORTS[name]
